@@ -1368,6 +1368,10 @@ def _weighted_quantile(sorted_values, quantiles, weights):
   index_values = np.arange(len(sorted_values))
   quantiles_idx = np.interp(x=quantiles, xp=weighted_quantiles, fp=index_values)
   quantiles_idx = np.rint(quantiles_idx).astype(int)
+  # np.interp is ambiguous where zero weights repeat a weighted quantile. The
+  # 0 and 1 quantiles are the smallest and the largest value.
+  quantiles_idx[np.asarray(quantiles) <= 0.0] = 0
+  quantiles_idx[np.asarray(quantiles) >= 1.0] = len(sorted_values) - 1
 
   # Replace repeated quantile values with neighbouring values.
   unique_idx, first_use = np.unique(quantiles_idx, return_index=True)
